@@ -1489,7 +1489,7 @@ impl PrimaryPredicateInequalityInitProof {
     }
 }
 
-#[cfg_attr(feature = "serde", derive(Serialize, Deserialize))]
+#[cfg_attr(feature = "serde", derive(Deserialize))]
 #[derive(Clone, Debug, PartialEq, Eq)]
 pub struct NonRevocProofXList {
     pub(crate) rho: GroupOrderElement,
@@ -1503,10 +1503,38 @@ pub struct NonRevocProofXList {
     pub(crate) m_prime: GroupOrderElement,
     pub(crate) t: GroupOrderElement,
     pub(crate) t_prime: GroupOrderElement,
-    #[cfg_attr(feature = "serde", serde(skip_serializing_if = "Option::is_none"))]
     pub(crate) m2: Option<GroupOrderElement>,
     pub(crate) s: GroupOrderElement,
     pub(crate) c: GroupOrderElement,
+}
+
+// `m2` is omitted when `None` in human-readable formats only (see RevocationRegistryDelta)
+#[cfg(feature = "serde")]
+impl Serialize for NonRevocProofXList {
+    fn serialize<S: serde::Serializer>(&self, serializer: S) -> Result<S::Ok, S::Error> {
+        use serde::ser::SerializeStruct;
+        let with_m2 = !(serializer.is_human_readable() && self.m2.is_none());
+        let mut st = serializer.serialize_struct("NonRevocProofXList", 13 + with_m2 as usize)?;
+        st.serialize_field("rho", &self.rho)?;
+        st.serialize_field("r", &self.r)?;
+        st.serialize_field("r_prime", &self.r_prime)?;
+        st.serialize_field("r_prime_prime", &self.r_prime_prime)?;
+        st.serialize_field("r_prime_prime_prime", &self.r_prime_prime_prime)?;
+        st.serialize_field("o", &self.o)?;
+        st.serialize_field("o_prime", &self.o_prime)?;
+        st.serialize_field("m", &self.m)?;
+        st.serialize_field("m_prime", &self.m_prime)?;
+        st.serialize_field("t", &self.t)?;
+        st.serialize_field("t_prime", &self.t_prime)?;
+        if with_m2 {
+            st.serialize_field("m2", &self.m2)?;
+        } else {
+            st.skip_field("m2")?;
+        }
+        st.serialize_field("s", &self.s)?;
+        st.serialize_field("c", &self.c)?;
+        st.end()
+    }
 }
 
 impl NonRevocProofXList {
